@@ -589,3 +589,38 @@ SPECS['C04'] = dict(queries=c04, assumptions=COMMON_ASSUMPTIONS + [
     "each writer reads the committed value under its handle and asserts that it equals the number of commits so far (ghost), inside an exclusive access window",
     "try_lock / try_lock_for / try_lock_until of cow_guarded are not instantiated: they do not compile in the unchanged library (handle() is ill-formed)"],
     outside=["more than 2 writers + 1 reader, more than 2 snapshots per reader", "R >= 3 with three threads"])
+
+
+# ------------------------------------------------------------------------------------------------ C07 (happens-before / memory orders)
+def c07(tier):
+    qs = []
+    W, R1, R2 = ('W', 'vp_writer'), ('R1', 'vp_reader'), ('R2', 'vp_reader')
+    hb = {'hb': True, 'yield_blocks': True}
+    hbn = {'hb': True, 'yield_blocks': False}
+    if tier == 'quick':
+        qs.append(mk('hb_lr_w1_r1_R3', 'c03_lr.cpp', [W, R1], 3, final='vp_final', cover=3, defines=['NWRITES=1', 'NREADS=1'], opts=hb, timeout=900))
+        qs.append(mk('hb_lr_w2_r1_R3', 'c03_lr.cpp', [W, R1], 3, final='vp_final', cover=3, defines=['NWRITES=2', 'NREADS=1'], opts=hb, timeout=900))
+        qs.append(mk('hb_trip_explicit_mv0_R3', 'c19_tripwire.cpp', [('O', 'vp_owner'), ('D', 'vp_detector')], 3, final='vp_final', cover=3,
+                     defines=['LINEKIND=1', 'MV=0'], opts=hbn, unwind=4, checks='pointer', must_cover=4, timeout=900))
+        qs.append(mk('hb_latch_w_a2_R4', 'c10_latch.cpp', [('W', 'vp_waiter'), ('A', 'vp_arriver')], 4, cover=3, defines=['NARRIVE=2', 'HB_DATA'],
+                     opts=dict(hbn, spur=1), unwind=4, timeout=900))
+    else:
+        qs.append(mk('hb_lr_w2_r1_r1_R3', 'c03_lr.cpp', [W, R1, R2], 3, final='vp_final', cover=3, defines=['NWRITES=2', 'NREADS=1'], opts=hb, timeout=3000))
+        qs.append(mk('hb_lr_w2_r2_R4', 'c03_lr.cpp', [W, R1], 4, final='vp_final', cover=3, defines=['NWRITES=2', 'NREADS=2'], opts=hb, timeout=3000))
+        for mv in (0, 1, 2):
+            qs.append(mk(f'hb_trip_explicit_mv{mv}_R4', 'c19_tripwire.cpp', [('O', 'vp_owner'), ('D', 'vp_detector')], 4, final='vp_final', cover=3,
+                         defines=['LINEKIND=1', f'MV={mv}'], opts=hbn, unwind=4, checks='pointer', must_cover=4, timeout=3000))
+        qs.append(mk('hb_latch_w_a1_aw_R3', 'c10_latch.cpp', [('W', 'vp_waiter'), ('A', 'vp_arriver'), ('AW', 'vp_arrive_wait')], 3, cover=7,
+                     defines=['NARRIVE=1', 'HB_DATA'], opts=dict(hbn, spur=1), unwind=4, timeout=3000))
+    return qs
+
+
+SPECS['C07'] = dict(queries=c07, assumptions=COMMON_ASSUMPTIONS + [
+    "happens-before monitor (engine/vphb.h): vector clocks per thread; synchronises-with edges from pthread mutex/rwlock and from atomics according to the memory order "
+    "written in the IR (release sequences continued by RMWs and by later stores of the same thread); every non-atomic access to shared memory must be ordered after the "
+    "previous conflicting access, otherwise 'data race' is reported",
+    "loads weaker than seq_cst may return the previous value of their location when the latest store is not ordered before them by happens-before (one-deep history, "
+    "coherence respected): exposes protocols that rely on seq_cst store->load ordering",
+    "this is NOT the full C++11 model: executions are SC interleavings plus the stale reads above; load buffering, consume, fences, mixed-size accesses are outside"],
+    outside=["rcu_list / cow_guarded / deferred_guarded protocols under the monitor (shadow tables too small for their heap; named here rather than silently skipped)",
+             "non-SC behaviours that need more than a one-deep store history", "std::atomic_thread_fence"])
